@@ -29,6 +29,8 @@ def gen_case(r, maxops):
     part = K.Part(adds, nons)
     c = {"kind": "wtw", "cls": "WWTW", "adds": adds, "nons": nons, "p": gen_params(r, adds),
          "outs": KD.gen_star(r, part, r.choice([0, 1, 1, 2]), [1, 1, 2, 0])}
+    if r.random() < 0.45:
+        return gen_fwtw(r, c, part, maxops)
     ops = []
     for _ in range(r.randint(1, maxops)):
         x = r.random()
@@ -54,6 +56,34 @@ def gen_case(r, maxops):
     return c
 
 
+def gen_fwtw(r, c, part, maxops):
+    """a FWTW: service reservoir, suppliers on the in-arcs, sewers (and other receivers) on the out-arcs"""
+    c["cls"] = "FWTW"
+    c["ins"] = KD.gen_star(r, part, r.choice([0, 1, 1, 2]), [3, 3, 1, 5])
+    c["outs"] = KD.gen_star(r, part, r.choice([0, 1, 1, 2]), [4, 4, 0])
+    c["p"]["tcap"] = F(r.choice([5, 20, 40]))
+    init = G.rand_vqip(r, part.na, part.nn, wet=True)
+    sc = c["p"]["tcap"] * r.choice([F(0), F(1, 2), F(1)])
+    c["init"] = (sc, [x * sc / init[0] for x in init[1]] if init[0] > 0 else [F(0)] * part.na, [F(r.randint(2, 25))] + list(init[2][1:]))
+    ops = []
+    for _ in range(r.randint(1, maxops)):
+        x = r.random()
+        if x < 0.4:
+            ops.append(("treat",))
+        elif x < 0.62:
+            ops.append(("pull", r.choice([G.rand_q(r), F(1), F(4), F(15)])))
+        elif x < 0.72:
+            ops.append(("pullcheck", None if r.random() < 0.5 else G.rand_q(r)))
+        elif x < 0.92:
+            ops.append(("end",))
+        elif ops:
+            q = gen_params(r, c["adds"])
+            q["tcap"] = F(r.choice([5, 20, 40]))
+            ops.append(("override", q))
+    c["ops"] = ops or [("treat",)]
+    return c
+
+
 def pdicts(c, p):
     pp = {n: {"constant": Ex(a), "exponent": Ex(b)} for n, a, b in zip(c["adds"], p["const"], p["expo"])}
     lm = {n: Ex(x) for n, x in zip(c["adds"], p["lm"])}
@@ -69,10 +99,21 @@ class Run:
         self.part = part = K.Part(c["adds"], c["nons"])
         p = c["p"]
         pp, lm = pdicts(c, p)
+        self.fw = c["cls"] == "FWTW"
         with contextlib.redirect_stdout(io.StringIO()):
-            self.hub = WWTW(name="hub", treatment_throughput_capacity=Ex(p["cap"]), stormwater_storage_capacity=Ex(p["tcap"]),
-                            process_parameters=pp, liquor_multiplier=lm, percent_solids=Ex(p["ps"]))
+            if self.fw:
+                from wsimod.nodes.wtw import FWTW
+                self.hub = FWTW(name="hub", treatment_throughput_capacity=Ex(p["cap"]), service_reservoir_storage_capacity=Ex(p["tcap"]),
+                                service_reservoir_initial_storage=part.d(c["init"]),
+                                process_parameters=pp, liquor_multiplier=lm, percent_solids=Ex(p["ps"]))
+            else:
+                self.hub = WWTW(name="hub", treatment_throughput_capacity=Ex(p["cap"]), stormwater_storage_capacity=Ex(p["tcap"]),
+                                process_parameters=pp, liquor_multiplier=lm, percent_solids=Ex(p["ps"]))
         self.hub.t = 0
+        self.ins = []
+        for i, a in enumerate(c.get("ins", [])):
+            nb = KD.FAKE[a["ty"]](f"i{i}", part, a["nb"])
+            self.ins.append((arcs.Arc(name=f"ai{i}", in_port=nb, out_port=self.hub, capacity=Ex(a["cap"]), preference=Ex(a["pref"])), nb))
         self.outs = []
         for i, a in enumerate(c["outs"]):
             nb = KD.FAKE[a["ty"]](f"o{i}", part, a["nb"])
@@ -88,25 +129,41 @@ class Run:
             if k == "pull":
                 return h.pull_set({"volume": Ex(op[1])})
             if k == "pullcheck":
+                if self.fw:
+                    return h.pull_check(None if op[1] is None else {"volume": Ex(op[1])})
                 return h.pull_check()
+            if k == "treat":
+                h.treat_water()
+                return None
             if k == "calc":
                 h.calculate_discharge()
             elif k == "make":
                 h.make_discharge()
             elif k == "end":
                 h.end_timestep()
-                for arc, nb in self.outs:
+                for arc, nb in self.outs + self.ins:
                     arc.end_timestep()
             elif k == "override":
                 q = op[1]
                 pp, lm = pdicts(self.c, q)
                 h.apply_overrides({"treatment_throughput_capacity": Ex(q["cap"]), "percent_solids": Ex(q["ps"]), "liquor_multiplier": lm,
-                                   "process_parameters": pp, "stormwater_storage_capacity": Ex(q["tcap"])})
+                                   "process_parameters": pp,
+                                   ("service_reservoir_storage_capacity" if self.fw else "stormwater_storage_capacity"): Ex(q["tcap"])})
         return None
 
     def enc(self):
         p, h = self.part, self.hub
         zero = p.d((F(0), [F(0)] * p.na, [F(0)] * p.nn))
+        if self.fw:
+            out = (p.ev(h.current_input) + p.ev(h.treated) + p.ev(h.liquor) + p.ev(h.solids) + p.ev(h.total_deficit) + p.ev(h.total_pulled)
+                   + p.ev(h.previous_pulled) + p.ev(h.unpushed_sludge))
+            t = h.service_reservoir_tank
+            out += p.ev(t.storage) + p.ev(t.storage_) + p.ev(zero)
+            for arc, nb in self.ins:
+                out += K.enc_arc_py(p, arc) + nb.fk.enc() + [0]
+            for arc, nb in self.outs:
+                out += K.enc_arc_py(p, arc) + [0] + nb.fk.enc()
+            return out
         out = p.ev(h.current_input) + p.ev(h.treated) + p.ev(h.liquor) + p.ev(h.liquor_) + p.ev(h.solids)
         out += p.ev(h.stormwater_tank.storage) + p.ev(h.stormwater_tank.storage_) + p.ev(zero)
         for arc, nb in self.outs:
@@ -132,8 +189,33 @@ def lit_params(p):
     return (f"(mkWP {C.qlit(p['cap'])} {C.qlit(p['ps'])} {C.qlit(p['lmvol'])} {C.veclit(p['lm'])} {C.veclit(p['const'])} {C.veclit(p['expo'])})")
 
 
+def expr_fwtw(c):
+    from wsimod.core import constants
+    ops = []
+    for op in c["ops"]:
+        k = op[0]
+        if k == "treat":
+            ops.append("FTreat")
+        elif k == "pull":
+            ops.append(f"FPullSet {C.qlit(op[1])}")
+        elif k == "pullcheck":
+            ops.append(f"FPullCheck {K.lit_opt_q(op[1])}")
+        elif k == "end":
+            ops.append("FEnd (20#1)")
+        else:
+            ops.append(f"FOverride {lit_params(op[1])} {C.qlit(op[1]['tcap'])}")
+    na, nn = len(c["adds"]), len(c["nons"])
+    zero = "(mkV 0 [] [])"
+    tank = f"(t_init {C.qlit(c['p']['tcap'])} {C.vlit(c['init'])} [] (2#1))"
+    f = (f"(mkFW _ {lit_params(c['p'])} {zero} {zero} {zero} {zero} {zero} {zero} {zero} {zero} {tank} "
+         f"{KD.star_lit(c['ins'], False)} {KD.star_lit(c['outs'], True)})")
+    return f"run_fwtw {na} {nn} {int(constants.MAXITER)} {f} [{'; '.join(ops)}]"
+
+
 def expr(c):
     from wsimod.core import constants
+    if c["cls"] == "FWTW":
+        return expr_fwtw(c)
     ops = []
     for op in c["ops"]:
         k = op[0]
